@@ -36,6 +36,10 @@
                     if !regions.iter().any(|r| r.0 == block_ord && r.1 == part.blob_block_offset && r.3) {
                         regions.push((block_ord, part.blob_block_offset, part.blob_block_offset + index_size, true));
                     }
+                    let data_len: usize = part.indices.iter().map(|ix| bits::align_up(PAGE, ix.len as usize)).sum();
+                    if part.data.len() != data_len {
+                        found.push(format!("WITNESS every_entry_page_aligned_inside_one_block_disjoint_from_neighbours_and_index_page :: {desc}: part data slice is {} bytes but its entries cover {} bytes", part.data.len(), data_len));
+                    }
                     let mut end = part.blob_block_offset + part.part_blob_offset;
                     for ix in part.indices.iter() {
                         let s = part.blob_block_offset + ix.offset as usize;
@@ -75,7 +79,19 @@
             (64 * kb, 4 * kb, vec![vec![5000; 40]]),
             (64 * kb, 8 * kb, vec![vec![1; 7], vec![56 * kb], vec![1, 1]]),
         ];
-        for (b, i, batches) in fixed { run_case(b, i, &batches, &mut found); if !found.is_empty() { break; } }
+        // entries whose length is an exact multiple of the page size, followed by others (alignment arithmetic)
+        let fixed2: Vec<(usize, usize, Vec<Vec<usize>>)> = vec![(64 * kb, 4 * kb, vec![vec![100, 4096, 100, 8192, 100]])];
+        for (b, i, batches) in fixed.into_iter().chain(fixed2.into_iter()) {
+            let r = std::panic::catch_unwind(|| { let mut f = vec![]; run_case(b, i, &batches, &mut f); f });
+            match r {
+                Ok(f) => found.extend(f),
+                Err(e) => {
+                    let msg = e.downcast_ref::<String>().cloned().or_else(|| e.downcast_ref::<&str>().map(|s| s.to_string())).unwrap_or_default();
+                    found.push(format!("WITNESS every_entry_page_aligned_inside_one_block_disjoint_from_neighbours_and_index_page :: block_size={b} index_size={i} batches(lens)={batches:?}: the real splitter panics: {msg}"));
+                }
+            }
+            if !found.is_empty() { break; }
+        }
         let mut rng = Lcg(seed.wrapping_add(7));
         let mut round = 0;
         while found.is_empty() && round < 300 {
